@@ -1,7 +1,12 @@
 (* C13 - delegated-balance reserve keeps an account's later transactions fundable.
-   This file contains only property theorems (closed by [exact]) and their assumption audit. *)
-From Grevm Require Import Base.Util Reserve.Planner Reserve.PlannerProofs.
+   This file contains only property theorems (closed by [exact] / tiny glue) and their assumption
+   audit.  Models: Reserve/{Planner,Journal,Rule,Funding}.v; instances: Reserve/Examples.v. *)
+From Grevm Require Import Base.Util Reserve.Planner Reserve.PlannerProofs Reserve.Journal
+  Reserve.JournalProofs Reserve.Rule Reserve.RuleProofs Reserve.Funding Reserve.FundingProofs
+  Reserve.Examples.
 Open Scope N_scope.
+
+(* ------------------------------------------------------------------ required_after *)
 
 (* required_after(txid, a) = saturating sum of max_balance_spending (U256::MAX when it is
    undefined) over a's transactions with index > txid - as a pure function of the block *)
@@ -21,5 +26,156 @@ Proof.
   apply map_ext. intros q. apply required_after_eq_spec.
 Qed.
 
+(* the slices partition_point is applied to are strictly increasing (its contract applies) *)
+Theorem C13_sender_index_sorted :
+  forall txs a l, lookup (sender_index txs) a = Some l -> incr_from 0 l.
+Proof. exact sender_index_sorted. Qed.
+
+(* ------------------------------------------------------------------ the journal *)
+
+(* for every well-formed journal (any state trace revm's entry semantics allows) the reverse walk
+   returns the balance immediately before entry i, for every account and every i *)
+Theorem C13_balance_before_exact :
+  forall es s tr i a, wf_trace s es tr -> bounded s -> (i <= length es)%nat ->
+  balance_before_entry es i a (last tr s a) = nth i (s :: tr) s a.
+Proof. exact balance_before_exact. Qed.
+
+(* ... and none of its saturating operations saturates *)
+Theorem C13_balance_before_never_saturates :
+  forall es s tr i a, wf_trace s es tr -> bounded s -> (i <= length es)%nat ->
+  walk_back_checked a (skipn i es) (last tr s a) = Some (nth i (s :: tr) s a).
+Proof. exact balance_before_never_saturates. Qed.
+
+(* revm's checkpoint_revert over a well-formed suffix restores every balance *)
+Theorem C13_checkpoint_revert_exact :
+  forall es s tr, wf_trace s es tr -> bounded s -> forall a, revert_all (last tr s) es a = s a.
+Proof. exact revert_all_exact. Qed.
+
+(* selected = delegated sources with a surviving debit other than the root value transfer, each
+   at its first such entry *)
+Theorem C13_candidates_exact :
+  forall t st entries cp (a : N) (g : nat),
+  In (a, g) (scan t st (skipn cp entries) cp (negb (value t =? 0)) []) <->
+  exists j, g = (cp + j)%nat /\
+    first_protected t st (skipn cp entries) (root_pos t (skipn cp entries) (negb (value t =? 0))) j a.
+Proof. exact candidates_exact. Qed.
+
+Theorem C13_candidates_unique :
+  forall t st entries cp,
+  NoDup (map fst (scan t st (skipn cp entries) cp (negb (value t =? 0)) [])).
+Proof. intros. apply scan_nodup. constructor. Qed.
+
+Theorem C13_delegated_debits_exact :
+  forall t st entries cp a before final,
+  In (a, before, final) (delegated_debits_since entries cp t st) <->
+  exists g d, In (a, g) (scan t st (skipn cp entries) cp (negb (value t =? 0)) []) /\
+              lookup st a = Some (final, d) /\
+              before = balance_before_entry entries g a final.
+Proof. exact delegated_debits_exact. Qed.
+
+(* ------------------------------------------------------------------ the rule *)
+
+Theorem C13_violation_iff :
+  forall cands required,
+  has_reserve_violation cands required = true <->
+  exists a before final, In (a, before, final) cands /\
+    required a <> 0 /\ final < N.min before (required a).
+Proof. exact violation_iff. Qed.
+
+Theorem C13_violation_order_insensitive :
+  forall l l' required, (forall c, In c l <-> In c l') ->
+  has_reserve_violation l required = has_reserve_violation l' required.
+Proof. exact violation_order_insensitive. Qed.
+
+Theorem C13_reserve_violation_iff :
+  forall txs txid t entries cp st, nth_opt txs txid = Some t ->
+  (reserve_violation txs txid entries cp st = true <->
+   exists a g final d,
+     In (a, g) (scan t st (skipn cp entries) cp (negb (value t =? 0)) []) /\
+     lookup st a = Some (final, d) /\
+     required_after txs txid a <> 0 /\
+     final < N.min (balance_before_entry entries g a final) (required_after txs txid a)).
+Proof. exact reserve_violation_iff. Qed.
+
+(* policy off (switch off, or any spec before Prague): revm's default lifecycle, no checkpoint,
+   no scan - for every instantiation of the opaque revm stages *)
+Theorem C13_policy_off_identical :
+  forall world gas rgas pre_exec execute refund_fn result_gas_of floor_fn reimburse reward
+         set_refund_zero bump_nonce journal_view flag spec txid txs t w,
+  flag = false \/ spec < PRAGUE ->
+  run_mode world gas rgas pre_exec execute refund_fn result_gas_of floor_fn reimburse reward
+           set_refund_zero bump_nonce journal_view (mode_of flag spec txid) txs t w
+  = run_off world gas rgas pre_exec execute refund_fn result_gas_of floor_fn reimburse reward t w.
+Proof. exact policy_off_identical. Qed.
+
+(* policy on, rule not violated: identical to the policy being off *)
+Theorem C13_on_without_violation_is_off :
+  forall world gas rgas pre_exec execute refund_fn result_gas_of floor_fn reimburse reward
+         set_refund_zero bump_nonce journal_view txs txid t w,
+  verdict world gas pre_exec execute refund_fn floor_fn reimburse journal_view txs txid t w = false ->
+  run_on world gas rgas pre_exec execute refund_fn result_gas_of floor_fn reimburse reward
+         set_refund_zero bump_nonce journal_view txs txid t w
+  = run_off world gas rgas pre_exec execute refund_fn result_gas_of floor_fn reimburse reward t w.
+Proof. exact on_without_violation_is_off. Qed.
+
+(* policy on, rule violated: charged top-level REVERT on the checkpoint state (fee, nonce bump,
+   authorisation effects), create-tx nonce re-bumped, authorisation refund only *)
+Theorem C13_on_with_violation :
+  forall world gas rgas pre_exec execute refund_fn result_gas_of floor_fn reimburse reward
+         set_refund_zero bump_nonce journal_view txs txid t w w1 ar w2 c out g,
+  pre_exec t w = Some (w1, ar) -> execute t w1 = (w2, (c, out, g)) ->
+  verdict world gas pre_exec execute refund_fn floor_fn reimburse journal_view txs txid t w = true ->
+  run_on world gas rgas pre_exec execute refund_fn result_gas_of floor_fn reimburse reward
+         set_refund_zero bump_nonce journal_view txs txid t w =
+  match (if is_create t then bump_nonce (caller t) w1 else Some w1) with
+  | None => Invalid world rgas
+  | Some w1' =>
+      let gv := floor_fn (refund_fn (set_refund_zero g) ar) in
+      Done world rgas (reward t (reimburse t w1' gv) gv) IRevert 0
+           (result_gas_of false (refund_fn (set_refund_zero g) ar))
+  end.
+Proof. exact on_with_violation. Qed.
+
+(* ------------------------------------------------------------------ funding *)
+
+(* if at block start balance a >= sum of the max costs of a's transactions (and is a U256), then
+   before each of a's transactions balance a >= its max cost + required_after, for every
+   interleaving of credits, own spending bounded by the max cost, and delegated debits guarded by
+   the rule - so none of them is skipped for lack of funds *)
+Theorem C13_fundable_stays_fundable :
+  forall blk b, Forall wf_tx blk -> b <= MAX256 -> sumN (own_costs blk) <= b -> all_funded true b blk.
+Proof. exact fundable_stays_fundable. Qed.
+
+(* the ledger's required_after is the planner's *)
+Theorem C13_req_after_is_planner :
+  forall a pre t rest bpre x brest,
+  aligned a (pre ++ t :: rest) (bpre ++ x :: brest) -> length pre = length bpre ->
+  required_after (pre ++ t :: rest) (length pre) a = req_after brest.
+Proof. exact req_after_is_planner. Qed.
+
+(* the rule is needed: with the policy off a fundable account can be skipped *)
+Theorem C13_unguarded_not_fundable :
+  exists blk b, Forall wf_tx blk /\ b <= MAX256 /\ sumN (own_costs blk) <= b /\ ~ all_funded false b blk.
+Proof.
+  exists [drain; later_own], 100. split; [exact funding_wf|].
+  split; [vm_compute; discriminate|]. split; [vm_compute; discriminate|exact funding_without_policy].
+Qed.
+
 Print Assumptions C13_required_after_spec.
 Print Assumptions C13_required_after_order_independent.
+Print Assumptions C13_sender_index_sorted.
+Print Assumptions C13_balance_before_exact.
+Print Assumptions C13_balance_before_never_saturates.
+Print Assumptions C13_checkpoint_revert_exact.
+Print Assumptions C13_candidates_exact.
+Print Assumptions C13_candidates_unique.
+Print Assumptions C13_delegated_debits_exact.
+Print Assumptions C13_violation_iff.
+Print Assumptions C13_violation_order_insensitive.
+Print Assumptions C13_reserve_violation_iff.
+Print Assumptions C13_policy_off_identical.
+Print Assumptions C13_on_without_violation_is_off.
+Print Assumptions C13_on_with_violation.
+Print Assumptions C13_fundable_stays_fundable.
+Print Assumptions C13_req_after_is_planner.
+Print Assumptions C13_unguarded_not_fundable.
